@@ -30,8 +30,20 @@ sys.path.insert(0, HERE)
 
 
 def sh(cmd, cwd=None, env=None, timeout=None):
-    p = subprocess.run(cmd, cwd=cwd, env=env, stdout=subprocess.PIPE, stderr=subprocess.STDOUT, text=True, errors="replace", timeout=timeout)
-    return p.returncode, p.stdout
+    # own process group, so that a hanging grandchild (e.g. the crate's test binary spinning under a
+    # mutant) is killed together with its parent when the watchdog fires
+    import signal
+    p = subprocess.Popen(cmd, cwd=cwd, env=env, stdout=subprocess.PIPE, stderr=subprocess.STDOUT, text=True, errors="replace", start_new_session=True)
+    try:
+        out, _ = p.communicate(timeout=timeout)
+        return p.returncode, out
+    except subprocess.TimeoutExpired:
+        try:
+            os.killpg(p.pid, signal.SIGKILL)
+        except ProcessLookupError:
+            pass
+        out, _ = p.communicate()
+        return None, (out or "") + "\n[timeout]"
 
 
 def setup():
@@ -74,7 +86,9 @@ def apply_patch(patch):
 
 def repo_tests():
     env = dict(os.environ, CARGO_NET_OFFLINE="true", CARGO_TARGET_DIR=os.path.join(SCR, "repo-target"))
-    rc, out = sh(["cargo", "test", "--offline", "--lib"], cwd=SREPO, env=env, timeout=1200)
+    rc, out = sh(["cargo", "test", "--offline", "--lib"], cwd=SREPO, env=env, timeout=420)
+    if rc is None:
+        return False, "the crate's own tests hang"
     m = re.search(r"test result: (\w+)\. (\d+) passed; (\d+) failed", out)
     if not m:
         return False, "does not compile" if "error" in out else "no test result"
@@ -94,6 +108,8 @@ def run_check(prop, tier, layers):
         env["MQV_LAYERS"] = layers
     t0 = time.time()
     rc, out = sh([os.path.join(SVERIF, "check"), prop, tier], cwd=SVERIF, env=env, timeout=3600)
+    if rc is None:
+        rc = "timeout"
     sigs = re.findall(r"signature: (\S+)", out)
     return rc, sigs, time.time() - t0, out
 
@@ -101,6 +117,7 @@ def run_check(prop, tier, layers):
 def main():
     ap = argparse.ArgumentParser()
     ap.add_argument("--only", default="")
+    ap.add_argument("--start", default="", help="skip everything before this name")
     ap.add_argument("--seeded", action="store_true")
     ap.add_argument("--mutants", action="store_true")
     ap.add_argument("--tier", default="quick")
@@ -123,6 +140,10 @@ def main():
                 items.append({"name": "seeded-" + d, "props": mj.get("check_with", [mj["property"]]), "expect": "detect", "patch": os.path.join(sd, d, "patch.diff"), "layers": mj.get("layers"), "why": mj.get("needs", "")})
     if only:
         items = [i for i in items if i["name"] in only]
+    if a.start:
+        names = [i["name"] for i in items]
+        if a.start in names:
+            items = items[names.index(a.start):]
     setup()
     results = []
     try:
